@@ -104,4 +104,63 @@ example : fallbackAppendix (wHead ++ wBad ++ closeTag ++ wTail) = some ([18, 0, 
 def wBad2 : List Nat := [16, 0, 0, 0] ++ openTag ++ [1, 2, 3]
 example : (fallbackAppendix (wHead ++ wBad2 ++ closeTag ++ wTail)).map (·.2) ≠ some (strBytes "raw") := by decide +kernel
 
+-- ---- phase 2: file-level fallback theorem, VTP layout, ascii byte order
+
+/-- `wHead` split into the pieces of `Spec.RawFile`: a realistic header, a binary appendix that contains
+    `<`, `>`, `_`, `"` and a truncated closing tag, the standard tail -/
+def wRaw : RawFile :=
+  ⟨strBytes "<VTKFile>" ++ List.replicate 100 32, [32], [61], strBytes "raw", [], [10],
+   [1, 0, 0, 0, 60, 47, 62, 95, 34, 60, 47, 65, 112, 112], strBytes "\n</VTKFile>\n"⟩
+
+-- the hypotheses of C05_fallback_appendix hold on it and the conclusion is observable
+example : wRaw.HeadOk := by decide +kernel
+example : wRaw.AppendixOk := by decide +kernel
+example : fallbackAppendix wRaw.content = some (wRaw.appendix, strBytes "raw") := by decide +kernel
+-- other legal header styles: blanks around `=`, further attributes, indentation before `_`, base64
+def wRaw2 : RawFile :=
+  { wRaw with a1 := strBytes " foo=\"1\" ", a2 := strBytes " = ", a3 := strBytes " bar=\"2\" ", ws := strBytes "\n   ",
+              enc := strBytes "base64", appendix := b64encode [1, 2, 3, 4] }
+example : wRaw2.HeadOk ∧ wRaw2.AppendixOk := by decide +kernel
+example : fallbackAppendix wRaw2.content = some (b64encode [1, 2, 3, 4], strBytes "base64") := by decide +kernel
+
+-- NEGATION WITNESSES.  AppendixOk is needed (class C05-RAWTAG): same header, appendix `wBad` / `wBad2`
+example : ¬ ({ wRaw with appendix := wBad } : RawFile).AppendixOk := by decide +kernel
+example : fallbackAppendix ({ wRaw with appendix := wBad } : RawFile).content
+    ≠ some (wBad, strBytes "raw") := by decide +kernel
+example : ¬ ({ wRaw with appendix := wBad2 } : RawFile).AppendixOk := by decide +kernel
+example : fallbackAppendix ({ wRaw with appendix := wBad2 } : RawFile).content
+    ≠ some (wBad2, strBytes "raw") := by decide +kernel
+-- HeadOk is needed: a `_` between `>` and the marker moves the start of the data …
+example : ¬ ({ wRaw with ws := [95] } : RawFile).HeadOk := by decide +kernel
+example : fallbackAppendix ({ wRaw with ws := [95] } : RawFile).content
+    = some (95 :: wRaw.appendix, strBytes "raw") := by decide +kernel
+-- … an attribute value `encoding` in front of the attribute of that name derails the detection …
+example : ¬ ({ wRaw with a1 := strBytes " x=\"encoding\" " } : RawFile).HeadOk := by decide +kernel
+example : (fallbackAppendix ({ wRaw with a1 := strBytes " x=\"encoding\" " } : RawFile).content).map (·.2)
+    ≠ some (strBytes "raw") := by decide +kernel
+-- … and so does a second `<AppendedData` behind the closing tag (the backward search sees it)
+example : (fallbackAppendix ({ wRaw with post := strBytes "<AppendedData/>" } : RawFile).content).map (·.2)
+    ≠ some (strBytes "raw") := by decide +kernel
+
+-- byte search lemmas are not vacuous: needle with a border (`aa` in `a·aa`) is outside `findAt_first_occ`
+example : occ [97, 97] [97] = false ∧ findAt [97, 97] ([97] ++ [97, 97] ++ []) 0 = some 0 := by decide
+
+-- VTP: two vertices, no lines, a triangle and a quad (rows of different length), one strip
+def wSecs : List (Nat × List (List Nat)) := [(2, [[0], [1]]), (4, []), (7, [[0, 1, 2], [1, 2, 3, 4]]), (6, [[0, 1, 2, 3]])]
+example : vtpArrays wSecs = [(2, 2, [0, 1], [1, 2]), (4, 0, [], []), (7, 2, [0, 1, 2, 1, 2, 3, 4], [3, 7]),
+    (6, 1, [0, 1, 2, 3], [4])] := by decide
+example : vtpLayout (vtpArrays wSecs) = [(2, [[0], [1]], [0, 1]), (7, [[0, 1, 2], [1, 2, 3, 4]], [2, 3]),
+    (6, [[0, 1, 2, 3]], [4])] := by decide
+example : splitCellData [10, 20, 30, 40, 50] (vtpLayout (vtpArrays wSecs))
+    = some [(2, [10, 20]), (7, [30, 40]), (6, [50])] := by decide
+-- a count attribute that disagrees with the offsets array (not producible by the spec writer) shifts the
+-- ranges: the model follows the code (ranges from the ATTRIBUTES), the theorem speaks about written files only
+example : vtpLayout [(2, 3, [0, 1], [1, 2]), (7, 1, [0, 1, 2], [3])]
+    = [(2, [[0], [1]], [0, 1, 2]), (7, [[0, 1, 2]], [3])] := by decide
+
+-- ascii: with a byte-order dependent dtype (the seeded refactoring) a BigEndian header swaps every item,
+-- so the statement of C05_ascii_byte_order is false for such a reader; the source as it is reads natively
+example : asciiItemsWith true .be 4 [1] = [0, 0, 0, 1] ∧ asciiItemsWith true .le 4 [1] = [1, 0, 0, 0] := by decide
+example : asciiItems .be 4 [1] = [1, 0, 0, 0] := by decide
+
 end Fc
